@@ -32,6 +32,10 @@ def check_strict_verify(v, r, what='verify'):
             return out, 'wrong-second-manifest-reference'
         if v.maybe and r[0] == 'GE' and r[1] == 'ManifestMismatch' and r[2].path in v.maybe:
             return out, 'mtime-shortcut'
+        if r[0] == 'GE' and r[1] == 'UnsupportedHash' and getattr(v, 'unsupported', False):
+            # an accepted Manifest holds an entry with a hash this installation cannot compute (e.g. a second
+            # reference to an already accepted Manifest): refusing is right, wherever the entry is met
+            return out, 'unsupported-hash-in-entry'
         out.append(viol('verify.false-alarm', '%s: model says the tree matches, gemato %s' % (what, describe(r)),
                         sig='%s:%s' % (r[0], r[1] if r[0] != 'ok' else r[1])))
         return out, None
